@@ -200,7 +200,7 @@ own("C12", "pow pow_big")
 own("C13", "gcd lcm gcd_lcm extended_gcd extended_gcd_lcm next_multiple_of prev_multiple_of is_multiple_of is_even is_odd inc dec")
 own("C17", "serialize deserialize serde_roundtrip")
 own("C18", "gen_biguint gen_bigint gen_biguint_below gen_range")
-own("C20", "cost_table")
+own("C20", "cost_table cost_sparse")
 own("C19", "from_biguint clone neg abs signum is_positive is_negative sign magnitude into_parts abs_sub is_zero is_one set_zero set_one const sign_neg sign_mul to_biguint to_bigint")
 own("C04", "clone obs arbitrary")
 
